@@ -38,12 +38,13 @@ class HarnessError(BaseException):
 def ensure_env(info):
     """Re-exec once so that the shim is preloaded and hashing is fixed."""
     want = info["shim"]
-    if os.environ.get("VSIM_SHIM") == want and os.environ.get("PYTHONHASHSEED") == "0":
+    hs = os.environ.get("VSIM_HASHSEED", "0")
+    if os.environ.get("VSIM_SHIM") == want and os.environ.get("PYTHONHASHSEED") == hs:
         return
     env = dict(os.environ)
     env["VSIM_SHIM"] = want
     env["LD_PRELOAD"] = want
-    env["PYTHONHASHSEED"] = "0"
+    env["PYTHONHASHSEED"] = hs
     env["HDF5_USE_FILE_LOCKING"] = "FALSE"
     env["OMP_NUM_THREADS"] = "1"
     env["OPENBLAS_NUM_THREADS"] = "1"
